@@ -35,7 +35,9 @@ pub fn closing(honest_once: bool) -> Vec<Ev> {
     } else {
         [Tick, SigAll(Ty::Msd), SigAll(Ty::Cdb), Tick, Quiesce]
     };
-    let mut v = vec![];
+    // a restarted node cycles at once (IDLE -> READY -> resumes or opens a round) before any signer
+    // has had the time to send anything again
+    let mut v = vec![Tick, Tick];
     for _ in 0..5 {
         v.extend(round.iter().cloned());
     }
@@ -82,6 +84,17 @@ pub fn msd_only_schedule() -> Vec<Ev> {
 }
 
 pub fn run_with_cuts(scratch: &std::path::Path, history: &[Ev], cuts: &[Cut], msd_only: bool, honest_once: bool) -> CrashRun {
+    match mc_core::catch(|| run_with_cuts_inner(scratch, history, cuts, msd_only, honest_once)) {
+        Ok(r) => r,
+        Err(e) => {
+            // a panic of the node under test: recorded as the outcome of this one run (see sys::panic_result)
+            let r = crate::sys::panic_result(e);
+            CrashRun { violations: vec![], crashes: 0, doubly_certified: 0, outcome: r.outcome, cuts: vec![] }
+        }
+    }
+}
+
+fn run_with_cuts_inner(scratch: &std::path::Path, history: &[Ev], cuts: &[Cut], msd_only: bool, honest_once: bool) -> CrashRun {
     let dir = fresh_dir(scratch);
     let rt = tokio::runtime::Builder::new_current_thread().enable_all().build().expect("tokio runtime");
     let hist_json = serde_json::to_value(history).unwrap();
@@ -195,6 +208,20 @@ pub fn run_with_cuts(scratch: &std::path::Path, history: &[Ev], cuts: &[Cut], ms
                 });
             }
         }
+        if w.panics.get() > 0 && !cuts.is_empty() {
+            // the restarted node did not resume: it crashed again by itself (a panic of the node,
+            // not an injected stop), however many times; the harness restarted it like a supervisor
+            violations.push(Violation {
+                key: "C15/restarted-node-crashes-again".into(),
+                what: format!(
+                    "after the stop at {:?} and the restart on the same database the node panicked {} time(s) by itself while resuming (it was restarted each time); last log lines {:?}",
+                    cuts.iter().map(|c| format!("{}#{}", c.point, c.occurrence)).collect::<Vec<_>>(),
+                    w.panics.get(),
+                    &log[log.len().saturating_sub(8)..]
+                ),
+                replay: json!({"history": hist_json, "cuts": cuts_json, "msd_only": msd_only, "honest_once": honest_once, "step": "end", "log": log}),
+            });
+        }
         let dc = doubly_certified(&w).await;
         let ncert = w.all_certificates().await.len();
         Ctl::uninstall();
@@ -202,7 +229,7 @@ pub fn run_with_cuts(scratch: &std::path::Path, history: &[Ev], cuts: &[Cut], ms
             violations,
             crashes,
             doubly_certified: dc,
-            outcome: format!("crashes={crashes},certificates={ncert},double={dc},state={}", w.state()),
+            outcome: format!("crashes={crashes},certificates={ncert},double={dc},state={}{}", w.state(), if w.panics.get() > 0 { ",node-panicked" } else { "" }),
             cuts: found,
         }
     });
@@ -227,7 +254,7 @@ pub fn run(ctx: &Ctx) -> ! {
         let msd_only = v["msd_only"].as_bool().unwrap_or(false);
         let honest_once = v["honest_once"].as_bool().unwrap_or(false);
         let r = run_with_cuts(&scratch, &h, &cuts, msd_only, honest_once);
-        eprintln!("replayed: {}", r.outcome);
+        eprintln!("replayed: {}", r.outcome); if std::env::var_os("VERIF_TRACE").is_some() { for v in &r.violations { eprintln!("  {}", v.key); } }
         rep.eval();
         for v in r.violations {
             rep.push_violation(v);
